@@ -5,7 +5,7 @@ postorder / left_sibling / right_sibling / lca / dominance / levels and
 treeoutput.compute_export_numbering.  Every evaluation -- also the internal
 ones the repository makes itself (preorder calls children, ...) -- is compared
 with the model of the tree currently under test."""
-from . import common, contracts, gen, model
+from . import common, contracts, gen, model, probe
 
 PROPERTY = 'C19'
 LEVEL = 'exploration'
@@ -319,11 +319,13 @@ def run_tree(ctx, spec, rng, again=True):
         # the model of the old shape says nothing about calls the
         # transformations make while the tree is being rebuilt
         Cur.root, Cur.by_id = None, {}
+        ntok = len(gen.tokens_of(spec['root']))
         with common.captured():
             try:
-                for name in names:
-                    live = getattr(tr, name)(live)
-            except Exception:
+                with probe.step_budget(3000000 * max(1, ntok // 20) ** 3):
+                    for name in names:
+                        live = getattr(tr, name)(live)
+            except (Exception, probe.StepBudgetExceeded):
                 live = None     # judged where the transformations are the subject
         if live is not None:
             defects, m = model.snapshot(live)
@@ -339,7 +341,12 @@ def run_tree(ctx, spec, rng, again=True):
         # created afterwards put into the copy
         import copy
         import gc
-        twin = copy.deepcopy(live)
+        try:
+            with probe.step_budget(20000000):
+                twin = copy.deepcopy(live)
+        except probe.StepBudgetExceeded:
+            ctx.stratum('deep copy given up (step budget)')
+            return
         del live
         m = defects = None
         Cur.root, Cur.by_id = None, {}
